@@ -35,6 +35,8 @@ ROUND2_FIX = {
  "C16d": "no run with -v / -vv -> verbosity flags on clone and compress cases",
  "C17d": "C17 never cloned in place -> the CLI slice also clones over a prior output holding the chunks in reverse order",
 }
+ROUND3_FIX = {
+}
 # written by the agents, confirmed to change behaviour, but judged NOT to break the property as stated: not kept
 REJECTED = {
  "C13d": "--force-create truncates the prior output before it is scanned: the scan then finds nothing in place, so the statement (about locations the scan found) holds vacuously; the author's own notes say so",
@@ -42,7 +44,7 @@ REJECTED = {
 }
 rows = []
 for pid in [f"C{i:02d}" for i in range(1, 18)]:
-    for v in "abcd":
+    for v in "abcdef":
         d = f"/tmp/seed/{pid}"
         if not os.path.exists(f"{d}/{v}.eval.json"):
             continue
@@ -58,12 +60,13 @@ for pid in [f"C{i:02d}" for i in range(1, 18)]:
         key = f"{pid}{v}"
         fpj = f"{d}/{v}.trial.quick.firstpass.json"
         missed = key in FIRST_PASS_MISSED
-        if v in "cd" and os.path.exists(fpj):
+        if v in "cdef" and os.path.exists(fpj):
             fp = json.load(open(fpj))
             missed = fp.get(pid, {}).get("rc") != 1
-            meta["first_pass_checks_commit"] = "49a2c6c (the checks as they stood before the second round of seeded changes)"
+            meta["first_pass_checks_commit"] = ("49a2c6c (the checks as they stood before the second round of seeded changes)" if v in "cd"
+                                                else "bcaeac9 (the checks as they stood before the third round of seeded changes)")
         if missed:
-            meta["first_pass"] = "missed by the target property's check; strengthened: " + FIRST_PASS_MISSED.get(key, ROUND2_FIX.get(key, "see DESIGN.md section 9"))
+            meta["first_pass"] = "missed by the target property's check; strengthened: " + FIRST_PASS_MISSED.get(key, ROUND2_FIX.get(key, ROUND3_FIX.get(key, "see DESIGN.md section 9")))
         else:
             meta["first_pass"] = "caught by the target property's check as it stood when the change was written"
         json.dump(meta, open(meta_p, "w"), indent=1)
